@@ -41,6 +41,15 @@ ASSUMPTIONS = [
     "meshes and inline hfields are covered",
     "in printed-precision mode only the relative error of written values is bounded (rtol 10^-(digits-1)); quantities the "
     "compiler derives from them are compared with 1e3 x rtol normwise",
+    "recomputed, not written: geom_pos AND geom_size of mesh geoms (the size of a mesh geom is the half-extent of the mesh's box, "
+    "never an attribute) are compared in the derived class; hfield_data is the elevation re-normalised to [0,1] by the compiler, so in "
+    "printed-precision mode its ABSOLUTE error is bounded (4 x rtol at scale 1), bit-equality is still required at full precision",
+    "the verdict is about compiled arrays only (statement: 'identical ... in every compiled array'): m1 == m2 and m2 == m3. A "
+    "difference between the TEXTS of two generations is an observation; the one known pattern (saveinertial: geom mass printed "
+    "as 0 by the second save while the explicit inertial wins) is counted, not flagged (audit B3: false alarm)",
+    "a difference is filed under a listed finding only after the mechanism has been confirmed for that case (counterfactual "
+    "recompile of a repaired text/source, or a structural test on the arrays - see the 'classification' section); otherwise it "
+    "keeps the generic signature roundtrip-differs:<class>:<field> and fails the run",
 ]
 
 FLOATS = ("mjtNum", "float", "double")
@@ -82,7 +91,8 @@ def _inertia_tensors(m):
 
 def compare(m1, m2, digits=17, align=False, ignore_sizes=()):
     """-> list of (kind, field, message, magnitude). kind in exact|size|pass|unit|derived|opt|vis|stat
-    ignore_sizes: size fields that are not compared (arrays whose shapes then differ are reported as 'exact' shape diffs)"""
+    ignore_sizes: size fields the caller has already dealt with (the fusestatic BVH over-allocation: nbvh*, nbuffer); they are
+    not compared and the bvh_* arrays, whose shapes then differ, are left to the caller"""
     out = []
     info = {"int_snap": 0, "max_unit": 0.0, "max_derived": 0.0, "iquat_degenerate": 0}
     full = digits >= 17
@@ -100,7 +110,8 @@ def compare(m1, m2, digits=17, align=False, ignore_sizes=()):
             continue  # the tree topology depends discontinuously on coordinates; only meaningful at full precision
         a, b = m1[k], m2[k]
         if a.shape != b.shape:
-            out.append(("exact", k, "shape %s != %s" % (a.shape, b.shape), 0))
+            if not (ignore_sizes and k.startswith("bvh_")):
+                out.append(("exact", k, "shape %s != %s" % (a.shape, b.shape), 0))
             continue
         if a.tobytes() == b.tobytes():
             continue
@@ -128,9 +139,14 @@ def compare(m1, m2, digits=17, align=False, ignore_sizes=()):
             else:
                 eps = 6e-8 if a.dtype == np.float32 else 0.0
                 bad = (ad > (rtol + eps) * np.abs(a64)) & ~snap
-            if k == "geom_pos" and bad.any():
+            if k == "hfield_data" and not full and bad.any():
+                # elevation data are re-normalised to [0, 1] by the compiler ((e - min) / (max - min)), so the printed rounding
+                # of the elevation values bounds the ABSOLUTE error of hfield_data (scale 1), not the relative error of an entry
+                bad = bad & (ad > 4 * (rtol + eps))
+            if k in ("geom_pos", "geom_size") and bad.any():
                 # mesh geoms: the writer recovers the user pose by undoing the mesh frame (mjuu_frameaccuminv) and the
-                # compiler re-applies it, so these rows are recomputed values
+                # compiler re-applies it, so these rows are recomputed values; the size of a mesh geom is never written at
+                # all (it is the half-extent of the mesh's bounding box, recomputed from the vertices)
                 meshrow = np.repeat(np.isin(m1["geom_type"], (E.mjGEOM_MESH, E.mjGEOM_SDF)), 3)
                 bad = bad & ~(meshrow & (ad <= (TOL_DER if full else 1e3 * rtol) * max(extent, 1e-3)))
             if bad.any():
@@ -824,11 +840,10 @@ def _lines(t):
     return sorted(l.strip() for l in _canon(t).splitlines() if l.strip())
 
 
-def _sig_for(kind, field, orders, src_frames):
-    if orders:
-        return "element-order-changed:%s:%s" % ("source-has-frame-before-sibling" if src_frames else "no-frames-involved", "+".join(orders))
-    return "roundtrip-differs:%s:%s" % (kind, field)
-
+# ------------------------------------------------------------------------------------------- classification
+# A violation is relabelled with the signature of a listed finding ONLY when the mechanism is confirmed for the case at
+# hand by a counterfactual (repair the saved text / the source and recompile) or by a structural test on the arrays;
+# everything that is not confirmed keeps the generic signature roundtrip-differs:<class>:<field>.
 
 _VEC_ATTR = re.compile(r'\b(vertex|normal|texcoord|elevation|vertweight|nodecoord)="([^"]*)"')
 
@@ -839,56 +854,543 @@ def six_digit_vectors(text):
     return bool(_VEC_ATTR.search(text))
 
 
-def _report(P, c, name, tags, m1, m2, t1, diffs, src_frames, digits, path, extra):
+def src_flags(src):
+    """compiler attributes of the source that the writer is known not to emit, with their EFFECTIVE values only:
+    settotalmass <= 0 (disabled, the default -1) and inertiagrouprange = "0 mjNGROUP-1" (the default) change nothing"""
+    out = {}
+    for mo in re.finditer(r'\bsettotalmass\s*=\s*"([^"]*)"', src):
+        try:
+            if float(mo.group(1)) > 0:
+                out["settotalmass"] = mo.group(1).strip()
+            else:
+                out.pop("settotalmass", None)
+        except ValueError:
+            pass
+    for mo in re.finditer(r'\binertiagrouprange\s*=\s*"([^"]*)"', src):
+        try:
+            v = [int(float(x)) for x in mo.group(1).split()]
+        except ValueError:
+            continue
+        if len(v) == 2 and v != [0, E.mjNGROUP - 1]:
+            out["inertiagrouprange"] = "%d %d" % tuple(v)
+        else:
+            out.pop("inertiagrouprange", None)
+    if re.search(r'\bfusestatic\s*=\s*"true"', src):
+        out["fusestatic"] = "true"
+    return out
+
+
+def insert_compiler_attrs(text, attrs):
+    """saved text with the given attributes added to its <compiler> element (created if absent)"""
+    add = "".join(' %s="%s"' % kv for kv in attrs.items())
+    mo = re.search(r"<compiler\b[^>]*?(/?)>", text)
+    if mo:
+        cut = mo.end() - len(mo.group(1)) - 1
+        return text[:cut] + add + text[cut:]
+    mo = re.search(r"<mujoco\b[^>]*>", text)
+    return text[:mo.end()] + "\n  <compiler%s/>" % add + text[mo.end():]
+
+
+_TAG2FAM = {"body": "body", "joint": "joint", "freejoint": "joint", "geom": "geom", "site": "site", "camera": "camera", "light": "light"}
+NESTABLE = ("body", "joint", "geom", "site", "camera", "light")
+
+
+def nesting(src, depth=0):
+    """(families, names): families of which the SOURCE really has an element below a <frame>/<replicate>/<attach> (what is
+    inside a nested body is nested too) and the names of those elements; <include>d files are followed (relative to the
+    cwd = directory of the main file). (None, None) if the source cannot be parsed."""
+    try:
+        root = ET.fromstring(src)
+    except (ET.ParseError, ValueError):
+        return None, None
+    fams, names = set(), set()
+
+    def walk(e, inside, depth):
+        for ch in e:
+            if ch.tag == "include" and depth < 4 and ch.get("file"):
+                try:
+                    walk(ET.fromstring(open(ch.get("file"), errors="replace").read()), inside, depth + 1)
+                except (OSError, ET.ParseError, ValueError):
+                    pass
+                continue
+            if ch.tag == "attach":
+                fams.update(NESTABLE)  # the attached sub-tree comes from another model; all of it sits under the attachment frame
+            if inside and ch.tag in _TAG2FAM:
+                fams.add(_TAG2FAM[ch.tag])
+                if ch.get("name"):
+                    names.add(ch.get("name"))
+            walk(ch, inside or ch.tag in ("frame", "replicate"), depth)
+    walk(root, False, 0)
+    return fams, names
+
+
+# ---- element permutations
+
+_PREFIX = {"body": "body_", "joint": "jnt_", "geom": "geom_", "site": "site_", "camera": "cam_", "light": "light_"}
+_OBJ2FAM = {1: "body", 2: "body", 3: "joint", 5: "geom", 6: "site", 7: "camera", 8: "light"}
+_WRAP2FAM = {1: "joint", 3: "site", 4: "geom", 5: "geom"}
+_TRN2FAM = {0: "joint", 1: "joint", 2: "site", 4: "site", 5: "body"}
+_REF_SIMPLE = {"geom_bodyid": "body", "jnt_bodyid": "body", "site_bodyid": "body", "cam_bodyid": "body", "light_bodyid": "body",
+               "dof_bodyid": "body", "body_parentid": "body", "body_rootid": "body", "body_weldid": "body",
+               "cam_targetbodyid": "body", "light_targetbodyid": "body", "dof_jntid": "joint", "pair_geom1": "geom", "pair_geom2": "geom"}
+_REF_TYPED = {"sensor_objid": ("sensor_objtype", _OBJ2FAM), "sensor_refid": ("sensor_reftype", _OBJ2FAM),
+              "eq_obj1id": ("eq_objtype", _OBJ2FAM), "eq_obj2id": ("eq_objtype", _OBJ2FAM), "tuple_objid": ("tuple_objtype", _OBJ2FAM),
+              "wrap_objid": ("wrap_type", _WRAP2FAM), "actuator_trnid": ("actuator_trntype", _TRN2FAM)}
+# arrays that only describe the memory layout (addresses, tree numbering): they follow from the element order
+_LAYOUT = re.compile(r"adr$|^body_(treeid|mocapid)$|^names$|^names_map$")
+_OBJ_COUNT = {"mjOBJ_BODY": "nbody", "mjOBJ_JOINT": "njnt", "mjOBJ_GEOM": "ngeom", "mjOBJ_SITE": "nsite", "mjOBJ_CAMERA": "ncam",
+              "mjOBJ_LIGHT": "nlight", "mjOBJ_FLEX": "nflex", "mjOBJ_MESH": "nmesh", "mjOBJ_SKIN": "nskin", "mjOBJ_HFIELD": "nhfield",
+              "mjOBJ_TEXTURE": "ntex", "mjOBJ_MATERIAL": "nmat", "mjOBJ_PAIR": "npair", "mjOBJ_EXCLUDE": "nexclude",
+              "mjOBJ_EQUALITY": "neq", "mjOBJ_TENDON": "ntendon", "mjOBJ_ACTUATOR": "nu", "mjOBJ_SENSOR": "nsensor",
+              "mjOBJ_NUMERIC": "nnumeric", "mjOBJ_TEXT": "ntext", "mjOBJ_TUPLE": "ntuple", "mjOBJ_KEY": "nkey", "mjOBJ_PLUGIN": "nplugin"}
+
+
+class Permuted:
+    """m1 renumbered the way m2 numbers its elements: perms[fam][i] = id in m1 of the element that has id i in m2.
+    Arrays of a permuted family are re-indexed; id columns that point into a permuted family are translated."""
+
+    def __init__(self, m, perms):
+        self.m = m
+        self.perms = {f: np.asarray(p, dtype=np.int64) for f, p in perms.items()}
+        self.inv = {f: np.argsort(p) for f, p in self.perms.items()}  # inv[id in m1] = id in m2
+        self.opt = m.opt
+
+    def sizes(self):
+        return self.m.sizes()
+
+    def fields(self):
+        return self.m.fields()
+
+    def n(self, k):
+        return self.m.n(k)
+
+    def stat_bytes(self):
+        return self.m.stat_bytes()
+
+    def opt_bytes(self):
+        return self.m.opt_bytes()
+
+    def vis_bytes(self):
+        return self.m.vis_bytes()
+
+    def name(self, obj, i):
+        fam = _OBJ2FAM.get(obj)
+        if fam in self.perms and obj != 2:
+            i = int(self.perms[fam][i])
+        return self.m.name(obj, i)
+
+    def _tr(self, fam, v):
+        v = np.array(v, copy=True)
+        if fam in self.inv:
+            ok = (v >= 0) & (v < len(self.inv[fam]))
+            v[ok] = self.inv[fam][v[ok]]
+        return v
+
+    def __getitem__(self, k):
+        a = self.m[k]
+        for fam, pre in _PREFIX.items():
+            if fam in self.perms and k.startswith(pre) and a.shape[0] == len(self.perms[fam]):
+                a = a[self.perms[fam]]
+                break
+        if k in _REF_SIMPLE:
+            a = self._tr(_REF_SIMPLE[k], a)
+        elif k in _REF_TYPED:
+            tarr, table = _REF_TYPED[k]
+            t = self.m[tarr]
+            a = np.array(a, copy=True)
+            for code, fam in table.items():
+                if fam in self.inv:
+                    rows = t == code
+                    if rows.any():
+                        a[rows] = self._tr(fam, a[rows])
+        elif k == "bvh_nodeid" and "geom" in self.inv and "body" not in self.inv:
+            a = np.array(a, copy=True)
+            adr, num = self.m["body_bvhadr"], self.m["body_bvhnum"]
+            for b in range(len(adr)):
+                if adr[b] >= 0 and num[b] > 0:
+                    a[adr[b]:adr[b] + num[b]] = self._tr("geom", a[adr[b]:adr[b] + num[b]])
+        return a
+
+
+def _fp_rows(m, fam, digits, tr=None):
+    cnt, obj, arrs = FAMILIES[fam]
+    rows = []
+    for i in range(m.n(cnt)):
+        key = [m.name(obj, i) or ""]
+        for a in arrs:
+            v = np.atleast_1d(m[a][i])
+            if tr is not None and a in _REF_SIMPLE:
+                v = tr(_REF_SIMPLE[a], v)
+            key.append((np.round(v.astype(np.float64), min(9, digits - 3)) + 0.0).tobytes())
+        rows.append(tuple(key))
+    return rows
+
+
+def infer_perm(m1, m2, fam, digits, perms):
+    """p with: element i of m2 is element p[i] of m1 (matched on name + fingerprint, body ids translated through the
+    body permutation found before); None if the two are not a permutation of each other"""
+    tr = Permuted(m1, {k: v for k, v in perms.items() if k == "body"})._tr if "body" in perms else None
+    if fam == "body":
+        n1 = [m1.name(1, i) or "" for i in range(m1.n("nbody"))]
+        n2 = [m2.name(1, i) or "" for i in range(m2.n("nbody"))]
+        if len(set(n1)) == len(n1) and sorted(n1) == sorted(n2) and all(n1[1:]):
+            pos = {nm: i for i, nm in enumerate(n1)}
+            return [pos[nm] for nm in n2]
+        return None  # unnamed bodies: parent ids cannot be translated without the permutation itself
+    r1, r2 = _fp_rows(m1, fam, digits, tr), _fp_rows(m2, fam, digits)
+    for mode in ("name+fingerprint", "name"):
+        if mode == "name":
+            k1, k2 = [r[0] for r in r1], [r[0] for r in r2]
+            if not all(k1):
+                break  # name-only matching needs every element named
+        else:
+            k1, k2 = r1, r2
+        if sorted(k1) != sorted(k2):
+            continue
+        slots = {}
+        for i, k in enumerate(k1):
+            slots.setdefault(k, []).append(i)
+        return [slots[k].pop(0) for k in k2]
+    return None
+
+
+def _names_equal(pm1, m2):
+    for en, cnt in _OBJ_COUNT.items():
+        obj = getattr(E, en, None)
+        if obj is None or cnt not in m2.sizes():
+            continue
+        for i in range(m2.n(cnt)):
+            if pm1.name(obj, i) != m2.name(obj, i):
+                return False
+    return True
+
+
+def confirm_order(m1, m2, orders, digits, align, nested, t1="", ign=()):
+    """-> (confirmed families, unconfirmed families, diffs that remain once m1 is renumbered like m2 | None, renumbered m1).
+    A family is confirmed when (a) the source nests an element of it in a frame/replicate/attach and (b) every array of
+    the family is equal in m1 and m2 once m1's elements are renumbered by the inferred permutation."""
+    perms = {}
+    bad = []
+    for fam in sorted(orders, key=lambda f: (f != "body", f)):
+        p = infer_perm(m1, m2, fam, digits, perms) if (fam in NESTABLE and nested and fam in nested) else None
+        if p is None:
+            bad.append(fam)
+        else:
+            perms[fam] = p
+    if not perms:
+        return [], bad, None, None
+    pm1 = Permuted(m1, perms)
+    d, _ = compare(pm1, m2, digits, align=align, ignore_sizes=ign)
+    names_ok = _names_equal(pm1, m2)
+    _, v6 = confirm_vec6(pm1, m2, t1, d, digits, align, ign)  # differences of the renumbered model that are 6-digit data vector effects
+    heavy = "body" in perms or "joint" in perms   # the dof/qpos/tree layout follows the body and joint order
+    rest, ok = [], []
+    for fam in perms:
+        pre = _PREFIX[fam]
+        own = [x for x in d if x[1].startswith(pre) and not _LAYOUT.search(x[1]) and x not in v6]
+        (bad if (own or not names_ok) else ok).append(fam)
+    for x in d:
+        k = x[1]
+        if any(k.startswith(_PREFIX[f]) for f in ok) and not any(k.startswith(_PREFIX[f]) for f in bad):
+            continue  # layout arrays of a confirmed family
+        if names_ok and re.search(r"^names$|^names_map$|^name_\w+adr$", k):
+            continue
+        rest.append(x)
+    return ok, bad, (None if heavy else rest), pm1
+
+
+# ---- 6-digit data vectors
+
+VEC6_ROOTS = {"mesh": ("mesh_vert", "mesh_normal", "mesh_texcoord"), "hfield": ("hfield_data",),
+              "flex": ("flex_vert", "flex_vert0", "flex_texcoord"), "skin": ("skin_vert", "skin_texcoord", "skin_bonevertweight")}
+_VEC6_TEXT = {"mesh": r'<mesh\b[^>]*\b(vertex|normal|texcoord)="', "hfield": r'<hfield\b[^>]*\belevation="',
+              "flex": r'<flex\b[^>]*\b(vertex|texcoord)="', "skin": r'<skin\b[^>]*\b(vertex|texcoord)="|<bone\b[^>]*\bvertweight="'}
+# arrays the compiler computes from those vectors. rows: geom_* only for geoms that use a mesh/hfield asset, body_* only for
+# bodies that carry such a geom or a flex vertex; the others are model-wide quantities downstream of the body inertias
+VEC6_ASSET = {"mesh_pos", "mesh_quat", "mesh_scale", "mesh_polynormal", "bvh_aabb", "bvh_nodeid", "bvh_child", "bvh_depth",
+              "flexedge_length0", "flexedge_invweight0", "flex_vertmetric", "flex_stiffness", "flex_bending", "flex_node", "flex_node0",
+              "flex_radius", "flex_size", "efm0_L"}
+VEC6_GEOMROWS = {"geom_pos", "geom_quat", "geom_size", "geom_aabb", "geom_rbound"}
+VEC6_BODYROWS = {"body_mass", "body_inertia", "body_ipos", "body_iquat"}
+VEC6_GLOBAL = {"body_inertia_tensor", "body_subtreemass", "body_invweight0", "dof_invweight0", "dof_M0", "dof_length", "tendon_invweight0", "actuator_acc0", "stat",
+               "cam_pos0", "cam_poscom0", "cam_mat0", "light_pos0", "light_poscom0", "light_dir0"}
+
+
+def _rows_differ(a, b, tol):
+    a2, b2 = a.reshape(a.shape[0], -1).astype(np.float64), b.reshape(b.shape[0], -1).astype(np.float64)
+    sc = max(float(np.abs(a2).max()) if a2.size else 0.0, 1e-300)
+    return (np.abs(a2 - b2) > tol * sc + 1e-13).any(axis=1)
+
+
+def confirm_vec6(m1, m2, t1, diffs, digits, align, ign=()):
+    """-> (roots, confirmed diffs). A diff is attributed to the 6-digit data vectors only if
+    (1) the saved text carries such a vector for an asset kind whose own arrays differ bit-wise between m1 and m2,
+    (2) the differing array is one of those arrays or is computed from them (explicit list; geom/body rows must be rows
+        of geoms/bodies that use such an asset),
+    (3) the difference vanishes when the same two models are compared under the 6-digit printed-precision rules, i.e.
+        it is bounded by 6-digit rounding of the written values."""
+    if digits <= 6:
+        return [], []
+    roots = []
+    for kind, arrs in VEC6_ROOTS.items():
+        if not re.search(_VEC6_TEXT[kind], t1):
+            continue
+        for a in arrs:
+            if a in m1.fields() and m1[a].shape == m2[a].shape and m1[a].tobytes() != m2[a].tobytes():
+                roots.append(kind)
+                break
+    if not roots:
+        return [], []
+    d6, _ = compare(m1, m2, 6, align=align, ignore_sizes=ign)
+    f6 = {x[1] for x in d6}
+    primary = {a for k in roots for a in VEC6_ROOTS[k]}
+    gt = m1["geom_type"]
+    assetgeom = np.isin(gt, (E.mjGEOM_MESH, E.mjGEOM_SDF, E.mjGEOM_HFIELD))
+    assetbody = np.zeros(m1.n("nbody"), dtype=bool)
+    assetbody[m1["geom_bodyid"][assetgeom]] = True
+    if "flex" in roots and "flex_vertbodyid" in m1.fields():
+        vb = m1["flex_vertbodyid"]
+        assetbody[vb[vb >= 0]] = True
+    ok = []
+    for x in diffs:
+        k = x[1]
+        if k in f6 or x[0] in ("size", "opt", "vis"):
+            continue
+        if k in primary or k in VEC6_ASSET or k in VEC6_GLOBAL:
+            ok.append(x)
+        elif k in VEC6_GEOMROWS or k in VEC6_BODYROWS:
+            linked = assetgeom if k in VEC6_GEOMROWS else assetbody
+            # rows of other geoms/bodies must agree to the tolerance of this precision mode
+            tol = TOL_DER if digits >= 17 else (4.0 if k in UNIT else 1e3 if k in VEC6_BODYROWS else 1.0) * 10.0 ** (-(digits - 1)) + 6e-8
+            if m1[k].shape == m2[k].shape and not (_rows_differ(m1[k], m2[k], tol) & ~linked).any():
+                ok.append(x)
+    return (roots, ok) if ok else ([], [])
+
+
+# ---- fusestatic counterfactual
+
+def fusestatic_counterfactual(L, src, digits):
+    """the same source with fusestatic switched off, saved and recompiled -> (sizes of first compile, sizes of the reload)
+    or a string (error message of the reload) / None (the source itself does not compile that way)"""
+    alt = re.sub(r'\bfusestatic\s*=\s*"true"', 'fusestatic="false"', src)
+    try:
+        sp = L.parse_xml_string(alt)
+        ma = L.compile(sp)
+    except drv.MjError:
+        return None
+    try:
+        ta = L.save_xml_string(sp, precision=digits)
+        sp2 = L.parse_xml_string(ta)
+        mb = L.compile(sp2)
+    except drv.MjError as e:
+        ma.free()
+        return str(e)
+    r = (dict(ma.sizes()), dict(mb.sizes()))
+    ma.free()
+    mb.free()
+    return r
+
+
+_MASS_FIELDS = {"body_mass", "body_inertia", "body_inertia_tensor"}
+
+
+def _mass_gone(before, after):
+    """the mass differences of `before` are absent from `after` or at least 1000 times smaller (what may remain is the
+    trace of another mechanism, which is then judged on its own), and `after` has no field that `before` did not have"""
+    fb, fa = {d[1]: d[3] for d in before}, {d[1]: d[3] for d in after}
+    if not set(fa) <= set(fb):
+        return False
+    for k in _MASS_FIELDS & set(fb):
+        if k in fa and not (np.isfinite(fb[k]) and fa[k] <= 1e-3 * fb[k]):
+            return False
+    return True
+
+
+def _strip_attrs(src, names):
+    for a in names:
+        src = re.sub(r'\s*\b%s\s*=\s*"[^"]*"' % a, "", src)
+    return src
+
+
+def _roundtrip_models(L, src, digits, path):
+    """compile src, save it the same way as the case under test, recompile -> (m1, m2, text) | None"""
+    try:
+        sp = L.parse_xml_string(src)
+        ma = L.compile(sp)
+    except drv.MjError:
+        return None
+    try:
+        if path == "copyback":
+            L.call("mj_copyBack", sp, ma)
+        ta = L.save_xml_string(sp, precision=digits)
+        mb = L.compile(L.parse_xml_string(ta))
+    except drv.MjError:
+        ma.free()
+        return None
+    return ma, mb, ta
+
+
+def confirm_compiler_attrs(L, src, t1, m1, m2, diffs, attrs, digits, path, align, own, ign=()):
+    """Is the omission of settotalmass / inertiagrouprange from the saved text the cause of the mass differences?
+    (R) text repair: the attribute(s), with the source's value, re-inserted into the saved <compiler> element; the recompiled
+        model must show no mass difference against m1 any more and nothing new.
+    (S) source counterfactual, tried when (R) does not settle it (after mj_copyBack the explicit <inertial>s are saved already
+        scaled while geom-inferred ones are not, so re-scaling the saved text cannot reproduce m1): the same source WITHOUT the
+        attribute(s), saved the same way, must round-trip without the mass differences (absent or 1000 times smaller: a trace
+        of another mechanism, e.g. a 6-digit mesh, is a genuine difference of that round trip and is judged there) and with
+        nothing new.
+    -> (attributes that matter, how, m1', m2', text', remaining diffs) with the pair of models on which everything else is
+    judged (as if only this defect had been repaired), or None if neither confirms."""
+    def keep_only(a_keep, mode):
+        """does attribute a_keep alone still produce the mass differences?"""
+        try:
+            if mode == "R":
+                ma = L.compile(L.parse_xml_string(insert_compiler_attrs(t1, {k: v for k, v in attrs.items() if k != a_keep})))
+                da, _ = compare(m1, ma, digits, align=align, ignore_sizes=ign)
+                ma.free()
+            else:
+                r = _roundtrip_models(L, _strip_attrs(src, [k for k in attrs if k != a_keep]), digits, path)
+                if r is None:
+                    return True
+                da, _ = compare(r[0], r[1], digits, align=align, ignore_sizes=ign)
+                r[0].free()
+                r[1].free()
+        except drv.MjError:
+            return True
+        return not _mass_gone(diffs, da)
+
+    t1r = insert_compiler_attrs(t1, attrs)
+    try:
+        m2r = L.compile(L.parse_xml_string(t1r))
+    except drv.MjError:
+        m2r = None
+    if m2r is not None:
+        own.append(m2r)
+        dr, _ = compare(m1, m2r, digits, align=align, ignore_sizes=ign)
+        # strict: no mass difference at all may be left (a partial repair can leave artefacts of its own, e.g. explicit
+        # inertials scaled twice, which must not be judged as if they were round-trip differences)
+        if _mass_gone(diffs, dr) and not ({d[1] for d in dr} & _MASS_FIELDS):
+            which = list(attrs) if len(attrs) == 1 else [a for a in attrs if keep_only(a, "R")]
+            return which or list(attrs), "saved text with the attribute re-inserted recompiles to m1", m1, m2r, t1r, dr
+    if src is not None:
+        r = _roundtrip_models(L, _strip_attrs(src, attrs), digits, path)
+        if r is not None:
+            own.extend(r[:2])
+            dn, _ = compare(r[0], r[1], digits, align=align, ignore_sizes=ign)
+            if _mass_gone(diffs, dn):
+                which = list(attrs) if len(attrs) == 1 else [a for a in attrs if keep_only(a, "S")]
+                return which or list(attrs), "same source without the attribute round-trips without the mass differences", r[0], r[1], r[2], dn
+    return None
+
+
+_COUNT2FAM = {"ngeom": "geom", "nsite": "site", "ncam": "camera", "nlight": "light"}
+
+
+def _report(P, L, c, name, tags, m1, m2, t1, diffs, src, nested, digits, path, align, extra):
+    """classify the differences of one round trip; may compile counterfactual texts (freed here)"""
     small = {k: c[k] for k in c if k != "xml" and not k.startswith("_")}
     base = dict(extra, case=small, model=name, tags=sorted(tags), all=[list(map(str, d)) for d in diffs[:12]])
-    orders = order_change(m1, m2, digits) if any(d[0] in ("exact", "pass", "size") for d in diffs) else []
-    if orders == ["key"] and len(re.findall(r"<key[ />]", t1)) < m1.n("nkey"):
-        P.violation("keyframe-equal-to-defaults-dropped-from-saved-xml-shifts-later-keys",
-                    dict(base, nkey=m1.n("nkey"), keys_written=len(re.findall(r"<key[ />]", t1))))
-        return
-    if orders:
-        P.violation(_sig_for(None, None, orders, src_frames), dict(base, families=orders))
-        return
-    flags = c.get("_src_flags", ())
-    fields = {d[1] for d in diffs}
-    MASSY = DERIVED | UNIT | {"body_sameframe", "body_inertia_tensor", "stat", "bvh_nodeid", "bvh_child", "bvh_depth", "geom_sameframe", "body_simple", "dof_simplenum"}
-    for attr in ("settotalmass", "inertiagrouprange"):
-        if attr in flags and (fields & {"body_mass", "body_inertia", "body_inertia_tensor"}) and ("compiler" not in t1 or attr not in t1.split("<compiler", 1)[1].split(">", 1)[0]):
-            P.violation("compiler-%s-not-written-to-saved-xml-masses-recomputed-without-it" % attr, dict(base, fields=sorted(fields)))
-            diffs = [d for d in diffs if d[1] not in MASSY]
-            break
-    if "fusestatic" in flags and any(d[0] == "size" and d[1] in ("ngeom", "nsite", "ncam", "nlight") for d in diffs) and "<frame" in c.get("_src", "<frame"):
-        P.violation("fusestatic-elements-inside-frames-dropped-from-saved-xml", dict(base))
-        return
-    if "fusestatic" in flags and any(d[0] == "size" and d[1].startswith(("nbvh", "nbuffer")) for d in diffs) and all(d[1].startswith(("nbvh", "nbuffer")) for d in diffs if d[0] == "size"):
-        P.violation("fusestatic-first-compile-keeps-bvh-nodes-that-a-recompile-does-not-have", dict(base))
-        return
-    vec6 = digits > 6 and six_digit_vectors(t1) and (c.get("feats", {}).get("rough_vectors", c.get("kind") == "corpus") or 'elevation="' in t1)
-    seen = set()
-    for kind, field, msg, mag in diffs:
-        sig = "roundtrip-differs:%s:%s" % (kind, field)
-        if field == "geom_dataid":
-            g1, g2 = m1["geom_dataid"], m2["geom_dataid"]
-            bad = g1 != g2
-            if (m1["geom_type"][bad] != E.mjGEOM_MESH).all() and (m1["geom_type"][bad] != E.mjGEOM_HFIELD).all() and (g2[bad] == -1).all() and (m1["geom_type"][bad] != E.mjGEOM_SDF).all():
-                sig = "primitive-fitted-to-mesh-keeps-geom_dataid-in-first-compile"
-        elif field == "actuator_lengthrange" and path == "spec" and "lengthrange" not in t1:
-            sig = "computed-lengthrange-and-compiler-lengthrange-not-saved-without-copyback"
-        elif vec6:
-            sig = "data-vector-written-with-6-digits-at-full-precision:" + field.split("_")[0]
-        if digits < 17:
-            sig += ":printed-precision"
-        if sig in seen:
-            continue
-        seen.add(sig)
-        if c.get("_gen2"):
-            sig = "second-generation:" + sig
-        P.violation(sig, dict(base, field=field, **{"class": kind}, message=msg, magnitude=mag))
+    flags = c.get("_src_flags", {})
+    gen2 = "second-generation:" if c.get("_gen2") else ""
+    own = []  # models compiled here
+    ign = set()  # BVH size fields once the fusestatic over-allocation has been confirmed and reported
+    try:
+        # ---- sizes differ: only the two fusestatic mechanisms are known, both need the counterfactual
+        sized = [d for d in diffs if d[0] == "size"]
+        if sized and "fusestatic" in flags and src is not None:
+            cf = fusestatic_counterfactual(L, src, digits)
+            cf_same = isinstance(cf, tuple) and cf[0] == cf[1]
+            counts = [d[1] for d in sized if d[1] in _COUNT2FAM]
+            if counts and cf_same and nested and all(_COUNT2FAM[k] in nested for k in counts) and all(m2.n(k) < m1.n(k) for k in counts):
+                # elements are missing after the reload, the source nests elements of exactly those kinds in a frame, and
+                # without fusestatic the very same source round-trips with all its elements
+                P.violation("fusestatic-elements-inside-frames-dropped-from-saved-xml", dict(base, missing={k: m1.n(k) - m2.n(k) for k in counts}))
+                return
+            if not counts and cf_same and all(d[1].startswith(("nbvh", "nbuffer")) for d in sized) and m1.n("nbvh") > m2.n("nbvh"):
+                bsz = {d[1] for d in sized}
+                d2, _ = compare(m1, m2, digits, align=align, ignore_sizes=bsz)
+                shp = [x for x in d2 if x[0] == "exact" and x[1].startswith("bvh_") and x[2].startswith("shape")]
+                n2 = m2.n("nbvh")
+                ch1, ch2 = m1["bvh_child"][:n2], m2["bvh_child"]
+                ab1, ab2 = m1["bvh_aabb"][:n2].astype(np.float64), m2["bvh_aabb"].astype(np.float64)
+                same_tree = (ch1.tobytes() == ch2.tobytes() and m1["bvh_depth"][:n2].tobytes() == m2["bvh_depth"].tobytes()
+                             and bool((np.abs(ab1 - ab2) <= (TOL_DER if digits >= 17 else 1e3 * 10.0 ** (-(digits - 1))) * (np.abs(ab1) + 1.0)).all()))
+                adr_same = m1["body_bvhadr"].tobytes() == m2["body_bvhadr"].tobytes() and m1["body_bvhnum"].tobytes() == m2["body_bvhnum"].tobytes()
+                id1, id2 = m1["bvh_nodeid"][:n2], m2["bvh_nodeid"]
+                neq = id1 != id2
+                internal = (ch2 >= 0).any(axis=1)
+                stale = bool(neq.any()) and bool((internal[neq]).all() and (id2[neq] == -1).all() and (id1[neq] >= 0).all())
+                if same_tree and adr_same and (stale or not neq.any()):  # (bvh_* are not compared at all in printed-precision mode)
+                    # the extra nodes are allocated but unused: every body addresses the same nodes, whose tree is identical
+                    P.violation("fusestatic-first-compile-keeps-bvh-nodes-that-a-recompile-does-not-have", dict(base, nbvh=[m1.n("nbvh"), n2]))
+                    if stale:
+                        # second, separate leftover of the re-computed tree: INTERNAL nodes of the fused parent carry a geom id
+                        # (m1) where a freshly built tree has -1 (m2); leaves agree
+                        P.violation("fusestatic-recomputed-bvh-internal-nodes-keep-stale-geom-ids", dict(base, nodes=np.flatnonzero(neq).tolist()[:20], m1_ids=id1[neq].tolist()[:20]))
+                    diffs, ign = [x for x in d2 if x not in shp], bsz
+                    if not diffs:
+                        return
+        # ---- compiler attributes the writer does not emit
+        attrs = {a: flags[a] for a in ("settotalmass", "inertiagrouprange") if a in flags}
+        if attrs and not any(d[0] == "size" for d in diffs) and ("<compiler" not in t1 or not any(a in t1.split("<compiler", 1)[1].split(">", 1)[0] for a in attrs)):
+            if {d[1] for d in diffs} & _MASS_FIELDS:
+                r = confirm_compiler_attrs(L, src, t1, m1, m2, diffs, attrs, digits, path, align, own, ign)
+                if r is not None:
+                    which, how, m1, m2, t1, left = r
+                    for a in which:
+                        P.violation(gen2 + "compiler-%s-not-written-to-saved-xml-masses-recomputed-without-it" % a,
+                                    dict(base, value=attrs[a], confirmed_by=how, fields_explained=sorted({d[1] for d in diffs} - {d[1] for d in left}),
+                                         fields_left=sorted({d[1] for d in left})))
+                    diffs = left
+                    if not diffs:
+                        return
+        # ---- element order
+        orders = order_change(m1, m2, digits) if any(d[0] in ("exact", "pass") for d in diffs) else []
+        if orders == ["key"] and len(re.findall(r"<key[ />]", t1)) < m1.n("nkey"):
+            P.violation("keyframe-equal-to-defaults-dropped-from-saved-xml-shifts-later-keys",
+                        dict(base, nkey=m1.n("nkey"), keys_written=len(re.findall(r"<key[ />]", t1))))
+            return
+        if orders:
+            ok, bad, rest, pm1 = confirm_order(m1, m2, orders, digits, align, nested, t1, ign)
+            for fam in sorted(ok):  # one signature per family: the listed findings name the families explicitly
+                P.violation("element-order-changed:source-has-frame-before-sibling:" + fam, dict(base, families=sorted(ok), nested_in_source=sorted(nested or ())))
+            if bad:
+                why = "no-frames-involved" if not (nested and set(bad) & set(nested)) else "not-a-permutation-of-frame-children"
+                P.violation("element-order-changed:%s:%s" % (why, "+".join(sorted(bad))), dict(base, families=sorted(bad), nested_in_source=sorted(nested or ())))
+            if bad or rest is None:
+                return  # ids no longer correspond (or body/joint order changed: the whole dof/tree layout follows)
+            diffs, m1 = rest, pm1  # from here on m1 is addressed with m2's element numbering
+        # ---- per-field mechanisms
+        roots, v6 = confirm_vec6(m1, m2, t1, diffs, digits, align, ign)
+        if v6:
+            for kind in roots:
+                P.violation(gen2 + "data-vector-written-with-6-digits-at-full-precision:" + kind + (":printed-precision" if digits < 17 else ""),
+                            dict(base, fields=sorted({x[1] for x in v6}), worst=max([float(x[3]) for x in v6 if np.isfinite(x[3])], default=0.0)))
+            diffs = [x for x in diffs if x not in v6]
+        seen = set()
+        for kind, field, msg, mag in diffs:
+            sig = "roundtrip-differs:%s:%s" % (kind, field)
+            if field == "geom_dataid":
+                g1, g2 = m1["geom_dataid"], m2["geom_dataid"]
+                bad = g1 != g2
+                if (m1["geom_type"][bad] != E.mjGEOM_MESH).all() and (m1["geom_type"][bad] != E.mjGEOM_HFIELD).all() and (g2[bad] == -1).all() and (m1["geom_type"][bad] != E.mjGEOM_SDF).all():
+                    sig = "primitive-fitted-to-mesh-keeps-geom_dataid-in-first-compile"
+            elif field == "actuator_lengthrange" and path == "spec" and "lengthrange" not in t1:
+                sig = "computed-lengthrange-and-compiler-lengthrange-not-saved-without-copyback"
+            if sig.startswith("roundtrip-differs") and digits < 17:
+                sig += ":printed-precision"
+            if sig in seen:
+                continue
+            seen.add(sig)
+            P.violation(gen2 + sig, dict(base, field=field, **{"class": kind}, message=msg, magnitude=mag))
+    finally:
+        for m in own:
+            m.free()
 
 
 def roundtrip(P, L, c, spec, m1, name, tags, src):
-    c = dict(c, _src_flags=[a for a in ("settotalmass", "inertiagrouprange", "fusestatic") if re.search(a + r'\s*=\s*"(?!false)', src)])
+    c = dict(c, _src_flags=src_flags(src))
+    nested, nested_names = nesting(src)
     digits = c.get("digits", 17)
     path = c.get("path_mode", "spec")
     if path == "copyback":
@@ -900,7 +1402,7 @@ def roundtrip(P, L, c, spec, m1, name, tags, src):
         if "no support for buffer textures" in msg:
             P.count("skipped_buffer_texture")
             return
-        P.violation("save-failed:" + re.sub(r"[0-9]+", "N", msg)[:60], {"case": c, "model": name, "message": msg})
+        P.violation("save-failed:" + re.sub(r"[0-9]+", "N", msg)[:60], {"case": {k: c[k] for k in c if not k.startswith("_")}, "model": name, "message": msg})
         return
     try:
         spec2 = L.parse_xml_string(t1)
@@ -909,9 +1411,15 @@ def roundtrip(P, L, c, spec, m1, name, tags, src):
         msg = str(e)
         P.case("%s|%s|saved-text-rejected" % (c["kind"], path), sample=None)
         el = re.search(r"Element '(\w+)'", msg)
-        if "fusestatic" in c["_src_flags"] and re.search(r"not found|unrecognized name|unknown element", msg) and ("<frame" in src or "<replicate" in src):
-            P.violation("fusestatic-elements-inside-frames-dropped-from-saved-xml", {"case": {k: c[k] for k in c if k != "xml"}, "model": name, "message": msg})
-            return
+        if "fusestatic" in c["_src_flags"] and re.search(r"not found|unrecognized name|unknown element", msg) and nested:
+            # confirm: the element the reader misses is one the source nests in a frame, and the same source without
+            # fusestatic saves to a text that is accepted
+            quoted = set(re.findall(r"'([^']+)'", msg))
+            cf = fusestatic_counterfactual(L, src, digits)
+            if isinstance(cf, tuple) and (quoted & nested_names if quoted else True):
+                P.violation("fusestatic-elements-inside-frames-dropped-from-saved-xml",
+                            {"case": {k: c[k] for k in c if k != "xml" and not k.startswith("_")}, "model": name, "message": msg, "missing_nested_elements": sorted(quoted & nested_names)})
+                return
         P.violation("saved-text-rejected:" + re.sub(r"'[^']*'", "'..'", re.sub(r"[0-9]+", "N", msg.splitlines()[0]))[:80] + (":element-" + el.group(1) if el else ""),
                     {"case": {k: c[k] for k in c if k != "xml"}, "model": name, "message": msg, "tags": sorted(tags)})
         return
@@ -922,9 +1430,8 @@ def roundtrip(P, L, c, spec, m1, name, tags, src):
     if not diffs:
         P.note_max("unit_class_abs_diff_clean_cases", info["max_unit"])
         P.note_max("derived_class_normwise_diff_clean_cases", info["max_derived"])
-    src_frames = ("frame_interleaved" in tags) or ("fusestatic" in c["_src_flags"] and ("<frame" in src or "<replicate" in src)) or (c["kind"] in ("corpus", "xml") and ("<frame" in src or "<replicate" in src or "<attach" in src))
     if diffs:
-        _report(P, c, name, tags, m1, m2, t1, diffs, src_frames, digits, path, {})
+        _report(P, L, c, name, tags, m1, m2, t1, diffs, src, nested, digits, path, align, {})
     else:
         P.count("models_identical_within_classes")
     # ---- second generation
@@ -950,8 +1457,11 @@ def roundtrip(P, L, c, spec, m1, name, tags, src):
                 vec = six_digit_vectors(t1)
                 if vec:
                     P.count("gen2_text_differs_with_6_digit_data_vectors")
-                elif all(' mass="0"' in l for l in only2) and "saveinertial" in src:
-                    P.violation("saveinertial-second-save-writes-geom-mass-0", {"case": c, "model": name, "only_in_first": only1, "only_in_second": only2})
+                elif only2 and all(' mass="0"' in l and l.startswith("<geom") for l in only2) and re.search(r'saveinertial\s*=\s*"true"', src):
+                    # writer quirk, text only: with saveinertial a geom with an explicit mass is printed mass="0" by the
+                    # second save (the explicit <inertial> wins, so no compiled array can differ). The statement is about
+                    # compiled arrays; m1 == m2 was established above and m2 == m3 is compared below - that is the verdict.
+                    P.count("gen2_text_differs_saveinertial_geom_mass_0")
                 else:
                     P.violation("second-generation-text-differs:%s" % (tagn.group(1) if tagn else "unknown"),
                             {"case": c, "model": name, "only_in_first": only1, "only_in_second": only2})
@@ -966,7 +1476,7 @@ def roundtrip(P, L, c, spec, m1, name, tags, src):
         if not diffs and not align:
             d23, _ = compare(m2, m3, digits, align=align)
             if d23:
-                _report(P, dict(c, _gen2=True), name, tags, m2, m3, t2, d23, "<frame" in t1, digits, path, {"generation": "m2 vs m3"})
+                _report(P, L, dict(c, _gen2=True, _src_flags=src_flags(t1)), name, tags, m2, m3, t2, d23, t1, nesting(t1)[0], digits, path, align, {"generation": "m2 vs m3"})
     m3.free()
     m2.free()
     cls = "full" if digits >= 17 else "printed"
@@ -1021,9 +1531,10 @@ def _spec_worker(P, L, c):
         if not diffs:
             P.note_max("unit_class_abs_diff_clean_cases", info["max_unit"])
             P.note_max("derived_class_normwise_diff_clean_cases", info["max_derived"])
-        has_frame = any(o.startswith("frame ") for o in ops)
+        # bodies are the only elements the op-list puts into frames; what they contain moves with them
+        nested = set(NESTABLE) if any(o.split()[0] == "body" and o.split()[3] != "-" for o in ops) else set()
         if diffs:
-            _report(P, c, "specapi", tags, m1, m2, t1, diffs, has_frame, digits, c.get("path_mode"), {"ops": ops})
+            _report(P, L, c, "specapi", tags, m1, m2, t1, diffs, None, nested, digits, c.get("path_mode"), False, {"ops": ops})
         else:
             P.count("models_identical_within_classes")
         t2 = L.save_xml_string(spec2, precision=digits)
@@ -1068,7 +1579,7 @@ TARGETED = [
 ]
 
 
-def run(ctx):
+def _cases(ctx):
     rng = ctx.rng
     cs = []
     # corpus: both save paths at full precision, a printed-precision pass on a subsample
@@ -1103,6 +1614,11 @@ def run(ctx):
         if i % 5 == 4:
             c["digits"] = int(rng.integers(6, 13))
         cs.append(c)
+    return cs
+
+
+def run(ctx):
+    cs = _cases(ctx)
     _hspec()
     res = par.run("vf.props.c32", "worker", cs, nproc=ctx.pick(8, 12), timeout=ctx.pick(300, 900))
     ncrash = 0
